@@ -1,9 +1,9 @@
 package props
 
 import (
-	"os"
 	"encoding/json"
 	"fmt"
+	"os"
 	"strings"
 
 	"github.com/xinchentechnote/fin-protoc/verifharness/dsl"
@@ -33,12 +33,12 @@ func (s *RapidSpeller) Choose(site string, n int) int {
 
 // textCase is a generated DSL text together with what it was made from.
 type textCase struct {
-	Text      string     `json:"text"`
-	Origin    string     `json:"origin"` // "syntax" | "program"
-	Toks      []dsl.Tok  `json:"-"`
+	Text      string       `json:"text"`
+	Origin    string       `json:"origin"` // "syntax" | "program"
+	Toks      []dsl.Tok    `json:"-"`
 	Prog      *dsl.Program `json:"-"`
-	NComments int        `json:"ncomments"`
-	Sites     []string   `json:"sites"`
+	NComments int          `json:"ncomments"`
+	Sites     []string     `json:"sites"`
 }
 
 // genText draws a syntactically valid text: half grammar-derived (syntactic validity only),
